@@ -182,7 +182,7 @@ def run(tier):
             enc = enc_rank(st)
             cid = f"reg{k}{tag}"
             cases.append({"id": cid, "step": "regularize", "rows": rows, "cols": cols, "inf0": enc[0], "sup0": enc[1], "inf1": enc[2], "sup1": enc[3],
-                          "vm0": enc_int(vm), "vm1": enc_int(run1["validity_mask"].data), "strict": tag == "one",
+                          "vm0": enc_int(vm), "vm1": enc_int(run1["validity_mask"].data), "strict": tag == "one", "check_widen": tag == "one",
                           "frame_other": bool(same_bits(a["disparity_map"].data, run1["disparity_map"].data)
                                               and same_bits(a["confidence_measure"].data[:, :, 0], run1["confidence_measure"].data[:, :, 0]))})
             meta[cid] = dict(feat, rows=rows, cols=cols, variant=tag)
